@@ -107,7 +107,8 @@ class Code15(Code13):
         self.co_lnotab = uncompressed_lnotab
 
     def encode_lineno_tab(self):
-        co_lnotab = ""
+        # A line table is binary data: bytes, as the unmarshaller delivers it.
+        co_lnotab = bytearray()
 
         prev_line_number = self.co_firstlineno
         prev_offset = 0
@@ -124,19 +125,19 @@ class Code15(Code13):
             # has a line increment also carries what is left of the
             # bytecode increment, continuation entries have none.
             while offset_diff > 255:
-                co_lnotab += chr(255)
-                co_lnotab += chr(0)
+                co_lnotab.append(255)
+                co_lnotab.append(0)
                 offset_diff -= 255
             while line_diff > 255:
-                co_lnotab += chr(offset_diff)
-                co_lnotab += chr(255)
+                co_lnotab.append(offset_diff)
+                co_lnotab.append(255)
                 offset_diff = 0
                 line_diff -= 255
             if offset_diff or line_diff:
-                co_lnotab += chr(offset_diff)
-                co_lnotab += chr(line_diff)
+                co_lnotab.append(offset_diff)
+                co_lnotab.append(line_diff)
 
-        self.co_lnotab = co_lnotab
+        self.co_lnotab = bytes(co_lnotab)
 
     def freeze(self):
         for field in "co_consts co_names co_varnames co_freevars co_cellvars".split():
